@@ -48,7 +48,7 @@ def unit_cell(prog, u):
 
 def gen_case(seed):
     rng = core.stream(seed, "gen")
-    F = {"p_hidden": 0.0}
+    F = {"p_hidden": 0.0, "p_inith": 0.0}      # (modules live in memory here: no package __init__ file)
     for k, p in (("p_alias", 0.5), ("p_wrapped", 0.5), ("p_recur", 0.6), ("p_explicit", 0.5), ("p_salt", 0.4)):
         if rng.random() > p:
             F[k] = 0.0
@@ -95,6 +95,8 @@ def gen_case(seed):
     for _ in range(rng.randrange(2, 9)):
         e = progen.gen_edit(rng, cur, counter, weights=[4, 2, 1, 1, 1, 2, 2, 3, 1.5, 1.5, 1, 1.5, 1, 1, 0.7, 0.5])
         counter += 1
+        if e["kind"] == "inith":
+            continue        # (a cross-process edit: not an in-process event)
         if e["kind"] == "add_edge" and e.get("form") == "hidden":
             e["form"] = "bare" if cur["nodes"][e["node"]]["module"] == cur["nodes"][e["to"]]["module"] else "attr"
         new, touched = evo.apply_with_discipline(cur, e, counter)
@@ -198,6 +200,7 @@ def _version(fn, via):
                 return MementoFunction(fn.fn, version=fn.explicit_version, register_fn=False).version()
             return MementoFunction(fn.fn, version_salt=fn._constructor_provided_version_salt,
                                    dependencies=sorted(fn.required_dependencies) if fn.required_dependencies else None,
+                                   auto_dependencies=fn.auto_dependencies is not False,
                                    register_fn=False).version()
         raise core.HarnessError(via)
     except core.HarnessError:
